@@ -43,6 +43,21 @@ type Embedded struct {
 	Inner
 	C bool
 }
+type EmbLate struct {
+	Q int
+	Inner
+	Z string
+}
+type inner2 struct{ S string }
+type EmbUnexported struct {
+	Q, R int
+	inner2
+}
+type EmbDeep struct {
+	X int8
+	Embedded
+	Y float64
+}
 type Rec struct {
 	V    int
 	Next *Rec
@@ -136,8 +151,8 @@ func Leaves() []Leaf {
 		{Class: "bytes", Vals: vals([]byte{1, 2, 255}, []byte(nil), []byte{}, []byte{0}, []byte("\"};"), []byte("hello world"))},
 		{Class: "bigint", Vals: vals(*bigI("1"), *bigI("0"), *bigI("-1"), *bigI("18446744073709551616"), *bigI("-1180591620717411303424"), *bigI("9"))},
 		{Class: "bigintp", Vals: vals(bigI("1"), (*big.Int)(nil), bigI("0"), bigI("-1"), bigI("18446744073709551616"), bigI("-1180591620717411303424"))},
-		{Class: "bigfloat", Vals: vals(*bigF("1.5"), *bigF("0"), *bigF("-1e100"), *bigF("0.1"), *bigF("3"))},
-		{Class: "bigfloatp", Vals: vals(bigF("1.5"), (*big.Float)(nil), bigF("0"), bigF("-1e100"), bigF("0.1"))},
+		{Class: "bigfloat", Vals: vals(*bigF("1.5"), *bigF("0"), *bigF("-1e100"), *bigF("0.1"), *bigF("3"), *new(big.Float).SetInf(false), *new(big.Float).SetInf(true))},
+		{Class: "bigfloatp", Vals: vals(bigF("1.5"), (*big.Float)(nil), bigF("0"), bigF("-1e100"), bigF("0.1"), new(big.Float).SetInf(true))},
 		{Class: "bigrat", Vals: vals(*bigR(1, 2), *bigR(0, 1), *bigR(-3, 1), *bigR(-7, 3), *bigR(1, 1<<40))},
 		{Class: "bigratp", Vals: vals(bigR(1, 2), (*big.Rat)(nil), bigR(0, 1), bigR(-3, 1), bigR(-7, 3))},
 		{Class: "time", Vals: vals(
@@ -424,6 +439,7 @@ func NamedStructs() []reflect.Type {
 		reflect.TypeOf(Inner{}), reflect.TypeOf(Tagged{}), reflect.TypeOf(Embedded{}), reflect.TypeOf(Rec{}),
 		reflect.TypeOf(TreeNode{}), reflect.TypeOf(OneField{}), reflect.TypeOf(Empty{}), reflect.TypeOf(Wide{}),
 		reflect.TypeOf(MyIntSlice{}), reflect.TypeOf(MyMap{}),
+		reflect.TypeOf(EmbLate{}), reflect.TypeOf(EmbUnexported{}), reflect.TypeOf(EmbDeep{}),
 	}
 }
 
